@@ -93,14 +93,22 @@ T_tasks_spawned == /\ Is("tasks_spawned") /\ Ev.v \in AV /\ Ev.n = Len(BlocksOf[
                    /\ SpawnLoopDone(Ev.v) /\ Consume
 T_task_call == Is("task_call") /\ HasBlock(Ev) /\ Call(BlockOf(Ev)) /\ Consume
 S_Send == /\ Is("task_ret") /\ HasBlock(Ev) /\ Send(Ev.v, BlockOf(Ev)) /\ Silent
+\* the severity of a returned string is logged only when the task is joined: look ahead for it
+JoinSevs(b) == LET S == {j \in l..Len(Rec) : Rec[j].ev = "task_join" /\ Rec[j].class = "str"
+                                             /\ Rec[j].file = b[1] /\ Rec[j].line = b[3]}
+               IN IF S = {} THEN {1} ELSE {Rec[CHOOSE j \in S : \A k \in S : j <= k].sev}
 T_task_ret == /\ Is("task_ret") /\ HasBlock(Ev)
-              /\ \E r \in RetsFor(Ev.v, Ev.class) : Return(Ev.v, BlockOf(Ev), r)
+              /\ \E r \in {x \in RetsFor(Ev.v, Ev.class) : Ev.class = "str" => x.sev \in JoinSevs(BlockOf(Ev))} :
+                    Return(Ev.v, BlockOf(Ev), r)
               /\ Consume
-T_task_join == /\ Is("task_join") /\ Ev.v \in AV
-               /\ \E b \in BlocksSet(Ev.v) \ joined[Ev.v] :
-                     /\ tstate[b] = "returned" /\ ClassOf(ret[b]) = Ev.class
-                     /\ Ev.class = "str" => (b[1] = Ev.file /\ b[3] = Ev.line /\ ret[b].sev = Ev.sev)
-                     /\ JoinNext(Ev.v, b)
+\* a joined nil / err task is not identified by the log: tasks of one class are interchangeable,
+\* so the least candidate is taken (no branching)
+JoinCands == {b \in BlocksSet(Ev.v) \ joined[Ev.v] :
+                /\ tstate[b] = "returned" /\ ClassOf(ret[b]) = Ev.class
+                /\ Ev.class = "str" => (b[1] = Ev.file /\ b[3] = Ev.line /\ ret[b].sev = Ev.sev)}
+Least(S) == CHOOSE b \in S : TRUE      \* TLC's CHOOSE is deterministic
+T_task_join == /\ Is("task_join") /\ Ev.v \in AV /\ JoinCands # {}
+               /\ JoinNext(Ev.v, Least(JoinCands))
                /\ Consume
 S_AVDone == (\E a \in AV : AVDone(a)) /\ Silent
 \* a validator's result reaches the outer JoinSet; a failure nobody logged is the blank-attribute Err
